@@ -38,7 +38,7 @@ pub fn worker_main(def: &PropDef, tier: Tier, seed: u64, start: u64, stride: u64
         }
         let mut delta = Delta::default();
         (def.run)(&env, k, &mut delta);
-        if k < 4 && delta.samples.is_empty() {
+        if k < 2 && delta.samples.is_empty() {
             // the scenario ended before its own sample point (a violation or an early exit): still show
             // the reader which case this was and what it counted
             delta.samples.push(serde_json::json!({
